@@ -171,12 +171,12 @@ def wire_cases(ctx, mode, algs, depth, bases, inv=("Emit",), mutdepth=1):
 def wire_respell_cases(ctx):
     cases = []
     if ctx.quick():
-        cases += wire_cases(ctx, "respell", [7], 1, range(1, 17), inv=("StaysConforming", "SizedBaseOK", "Emit"))
+        cases += wire_cases(ctx, "respell", [7], 1, range(1, 18), inv=("StaysConforming", "SizedBaseOK", "Emit"))
         cases += wire_cases(ctx, "respell", [6, 36], 1, [1, 6], inv=("StaysConforming", "Emit"))
-        cases += wire_cases(ctx, "respell", [7], 2, [1, 4, 5, 7, 8], inv=("StaysConforming", "Emit"))
+        cases += wire_cases(ctx, "respell", [7], 2, [1, 4, 5, 7, 8, 17], inv=("StaysConforming", "Emit"))
     else:
-        cases += wire_cases(ctx, "respell", [6, 7, 34, 35, 36, 37, 38], 1, range(1, 17), inv=("StaysConforming", "SizedBaseOK", "Emit"))
-        cases += wire_cases(ctx, "respell", [7], 2, list(range(1, 11)) + [15, 16], inv=("StaysConforming", "Emit"))
+        cases += wire_cases(ctx, "respell", [6, 7, 34, 35, 36, 37, 38], 1, range(1, 18), inv=("StaysConforming", "SizedBaseOK", "Emit"))
+        cases += wire_cases(ctx, "respell", [7], 2, list(range(1, 11)) + [15, 16, 17], inv=("StaysConforming", "Emit"))
     seen, out = set(), []
     for c in cases:
         k = (c["kind"], tuple(c["wire"]), tuple(c["ext"]))
@@ -304,10 +304,11 @@ def c01_cases(ctx):
     if ctx.quick():
         cases += g([-7, -8], ALL_FLOWS, [0, 1, 24, 256], [1, 2, 3, 4])
         cases += g([-7], ["msg", "helper", "sign", "cs"], [1], [7])
+        cases += g([-7, -8], ["msg", "detached", "helper", "sigalone"], [1], [8])
         cases += g([-7], ["msg", "detached", "helper"], [23, 255, 65535, 65536], [2, 5, 6])
         cases += g([-35, -36, -37, -38, -39], ["msg", "sign", "cs", "cs0", "cslist"], [2], [1, 4])
     else:
-        cases += g([-7, -8, -35, -36], ALL_FLOWS, [0, 1, 23, 24, 255, 256], [1, 2, 3, 4, 5, 6, 7])
+        cases += g([-7, -8, -35, -36], ALL_FLOWS, [0, 1, 23, 24, 255, 256], [1, 2, 3, 4, 5, 6, 7, 8])
         cases += g([-37, -38, -39], ALL_FLOWS, [0, 24, 256], [1, 2, 4])
         cases += g([-7, -8, -37], ["msg", "detached", "helper", "sign"], [65535, 65536], [2, 5, 6])
     return cases
